@@ -51,11 +51,22 @@ class SymEngine(Engine):
     def observe(self, label, value):
         self.observed.append((label, value))
 
-    def prove(self, cond, label=""):
+    def witness(self):
+        """one concrete input vector of the current path (model of the path condition)"""
+        r = self.check()
+        if r != z3.sat:
+            raise Unsupported("no model for the current path")
+        return self.model_inputs(self.model())
+
+    def prove(self, cond, label="", inputs=None):
         self.reached += 1
         if cond is True:
             self.path_trivial += 1
             return True
+        if inputs is not None and not isinstance(cond, (SymBool, SymInt)) and not cond:
+            # a concrete disagreement observed on a specific witness of this path
+            self.path_violations.append({"label": label, "inputs": inputs})
+            raise PathAbort()
         if isinstance(cond, (SymBool, SymInt)):
             t = bterm(cond)
             r = self.check(z3.Not(t))
@@ -138,7 +149,10 @@ class ConcreteEngine:
     def observe(self, label, value):
         self.observed.append((label, value))
 
-    def prove(self, cond, label=""):
+    def witness(self):
+        return dict(self.inputs)
+
+    def prove(self, cond, label="", inputs=None):
         self.reached += 1
         if not cond:
             self.violations.append({"label": label})
